@@ -227,7 +227,7 @@ func (g *gen) blockComment(c cls, multi bool, label string) string {
 			body = " " + body + " \n\t" + extra + "  \n"
 		}
 	}
-	txt := "/*" + body + "*/"
+	txt := "/*" + g.noTab(body) + "*/"
 	g.comments = append(g.comments, comment{text: txt, must: c == clsMust})
 	return txt
 }
@@ -533,9 +533,30 @@ func (g *gen) syntaxStmt() {
 	g.tok(g.str("synv", false), gAny, clsMay).tr(g.cap(clsMust))
 }
 
+// empties draws which of n values are the empty string; allEmpty: every one is (such a group is
+// dropped by the formatter as a whole).
+func (g *gen) empties(n int, label string) (list []bool, all bool) {
+	list = make([]bool, n)
+	if n > 0 && g.chance(5, label+"allempty") {
+		for i := range list {
+			list[i] = true
+		}
+		return list, true
+	}
+	some := false
+	for i := range list {
+		list[i] = g.chance(6, label+"empty1")
+		some = some || !list[i]
+	}
+	if !some && n > 0 {
+		list[0] = false
+	}
+	return list, false
+}
+
 // kvGroup emits "( key: value ... )" for info and @doc groups (parseKVExpression: value is a
 // STRING or RAW_STRING).
-func (g *gen) kvGroup(label string, n int, allEmpty bool) {
+func (g *gen) kvGroup(label string, n int, empty []bool) {
 	open := clsMust
 	if n == 0 {
 		open = clsMay
@@ -546,12 +567,12 @@ func (g *gen) kvGroup(label string, n int, allEmpty bool) {
 		g.tok(":", gAny, clsMay)
 		var v string
 		switch {
-		case allEmpty:
+		case empty[i]:
 			v = rapid.SampledFrom([]string{`""`, "``"}).Draw(g.t, label+"ev")
 		case g.chance(20, label+"raw"):
 			v = g.rawStr(label+"rv", g.chance(30, label+"ml"))
 		default:
-			v = g.str(label+"sv", g.chance(6, label+"empty1"))
+			v = g.str(label+"sv", false)
 		}
 		g.tok(v, gAny, clsMay).tr(g.cap(clsMust))
 	}
@@ -561,10 +582,10 @@ func (g *gen) kvGroup(label string, n int, allEmpty bool) {
 func (g *gen) infoStmt() {
 	g.kind("info")
 	n := g.n(0, 4, "infon")
-	allEmpty := n > 0 && g.chance(5, "infoempty")
+	empty, allEmpty := g.empties(n, "info")
 	body := func() {
 		g.tok("info", gAny, g.cap(clsMust))
-		g.kvGroup("info", n, allEmpty)
+		g.kvGroup("info", n, empty)
 		g.tr(g.cap(clsMust))
 	}
 	if n == 0 || allEmpty {
@@ -591,7 +612,8 @@ func (g *gen) importGroup() {
 	g.kind("importgroup")
 	g.groups++
 	n := g.n(0, 4, "impgn")
-	body := func(empty bool) {
+	empty, allEmpty := g.empties(n, "impg")
+	body := func() {
 		g.tok("import", gAny, g.cap(clsMust))
 		open := g.cap(clsMust)
 		if n == 0 {
@@ -600,19 +622,18 @@ func (g *gen) importGroup() {
 		g.tok("(", gAny, clsMay).tr(open)
 		for i := 0; i < n; i++ {
 			v := `""`
-			if !empty && !g.chance(5, "impgempty1") {
+			if !empty[i] {
 				v = g.str("impgv", false)
 			}
 			g.tok(v, gAny, g.cap(clsMust)).tr(g.cap(clsMust))
 		}
 		g.tok(")", gAny, open).tr(g.cap(clsMust))
 	}
-	if n == 0 || g.chance(4, "impgempty") {
-		g.dropped(func() { body(true) })
+	if n == 0 || allEmpty {
+		g.dropped(body)
 		return
 	}
-	// a group that happens to hold only "" values is dropped too; the oracle's normal form knows
-	body(false)
+	body()
 }
 
 func (g *gen) typeLit() {
@@ -772,7 +793,7 @@ func (g *gen) service() {
 	g.kind("service")
 	if g.chance(50, "atserver") {
 		n := g.n(0, 4, "asn")
-		allEmpty := n > 0 && g.chance(5, "asempty")
+		empty, allEmpty := g.empties(n, "as")
 		body := func() {
 			open := g.cap(clsMust)
 			if n == 0 {
@@ -783,7 +804,7 @@ func (g *gen) service() {
 			for i := 0; i < n; i++ {
 				g.tok(g.ident("askey"), gAny, g.cap(clsMust))
 				g.tok(":", gAny, clsMay)
-				g.serverValue(allEmpty)
+				g.serverValue(empty[i])
 				g.tr(g.cap(clsMust))
 			}
 			g.tok(")", gAny, open).tr(g.cap(clsMust))
@@ -864,7 +885,7 @@ func (g *gen) serverValue(empty bool) {
 	case 6:
 		g.tok(fmt.Sprint(g.n(0, 100000, "asvint")), gAny, clsMay)
 	default:
-		g.tok(g.str("asvstr", g.chance(5, "asvstrempty")), gAny, clsMay)
+		g.tok(g.str("asvstr", false), gAny, clsMay)
 	}
 }
 
@@ -883,10 +904,10 @@ func (g *gen) serviceItem() {
 		}
 	case 3: // @doc ( k: "v" ... )
 		n := g.n(0, 3, "docgn")
-		allEmpty := n > 0 && g.chance(6, "docgempty")
+		empty, allEmpty := g.empties(n, "docg")
 		body := func() {
 			g.tok("@doc", gAny, g.cap(clsMust))
-			g.kvGroup("doc", n, allEmpty)
+			g.kvGroup("doc", n, empty)
 			g.tr(g.cap(clsMust))
 		}
 		if n == 0 || allEmpty {
